@@ -34,7 +34,9 @@ for i in sorted(os.listdir(sd)):
     m = json.load(open(os.path.join(sd, i, "meta.json")))
     needs = m.get("needs", "").replace("|", "/").replace("\n", " ")
     cb = "; ".join(m.get("caught_by", [])).replace("|", "/").replace("\n", " ")
-    rows.append(f"| {i} | {needs[:400]} | {cb[:400]} |")
+    if m.get("retired"):
+        cb = "RETIRED — " + m["retired"].replace("|", "/") + " Before: " + cb
+    rows.append(f"| {i} | {needs[:400]} | {cb[:600]} |")
     if "missed" in cb.lower():
         first_missed.append(i)
 rows.append("")
